@@ -287,14 +287,22 @@ pub fn many_headers() -> Vec<(String, Vec<crux_http::http::headers::HeaderValue>
 fn show_http(site: &str, res: crux_http::Result<crux_http::Response<Vec<u8>>>) -> String {
     match res {
         Ok(mut r) => {
+            // names sorted (the response keeps them in a hash map), but the values of every name
+            // in the order the response holds them: that order is observable (`.last()`, the
+            // content type, the charset the body is decoded with)
             let mut hs: Vec<String> = r
                 .iter()
-                .flat_map(|(n, vs)| vs.iter().map(move |v| format!("{n}:{v}")))
+                .map(|(n, vs)| {
+                    let vals: Vec<&str> = vs.iter().map(|v| v.as_str()).collect();
+                    format!("{n}:{}", vals.join("|"))
+                })
                 .collect();
             hs.sort();
             let status = u16::from(r.status());
-            let body = r.take_body();
-            format!("{site}<-http {status} {hs:?} {body:?}")
+            let body = r.body().cloned();
+            let content_type = r.content_type().map(|m| m.to_string());
+            let text = r.body_string();
+            format!("{site}<-http {status} {hs:?} {body:?} type {content_type:?} text {text:?}")
         }
         Err(e) => format!("{site}<-http error {e:?}"),
     }
